@@ -269,6 +269,33 @@ struct Rw<'a> {
 type Edit = (usize, usize, String);
 
 /// inserted proof text is tagged line by line so the driver can tell scaffolding from repository code
+/// R20: Verus has no reference patterns; `&name` inside a pattern becomes `__r_name`, bound by `let name = *__r_name;`
+/// at the start of the arm (what the pattern does for a `Copy` scrutinee)
+fn deref_pats(pat: &str) -> (String, String) {
+    let b = pat.as_bytes();
+    let (mut out, mut binds, mut i) = (String::new(), String::new(), 0);
+    while i < b.len() {
+        if b[i] == b'&' {
+            let mut j = i + 1;
+            while j < b.len() && b[j] == b' ' { j += 1; }
+            let st = j;
+            while j < b.len() && (b[j].is_ascii_alphanumeric() || b[j] == b'_') { j += 1; }
+            if j > st && !(b[st] as char).is_ascii_digit() {
+                let name = &pat[st..j];
+                if name != "_" && name != "mut" {
+                    out.push_str(&format!("__r_{name}"));
+                    binds.push_str(&format!("let {name} = *__r_{name}; "));
+                    i = j;
+                    continue;
+                }
+            }
+        }
+        out.push(b[i] as char);
+        i += 1;
+    }
+    (out, binds)
+}
+
 fn mark(t: &str) -> String {
     t.lines().map(|l| format!("{} //@p", l)).collect::<Vec<_>>().join("\n")
 }
@@ -700,6 +727,50 @@ impl<'a, 'b, 'ast> Visit<'ast> for Collector<'a, 'b> {
                 }
                 visit::visit_expr(self, e);
             }
+            Expr::MethodCall(c) if rw.for_iter && c.method == "fold" && c.args.len() == 2 && matches!(&c.args[1], Expr::Closure(cl) if cl.inputs.len() == 2) => {
+                // R16b (option for_iter=1): `(lo..=hi).fold(init, |a, i| B)` -> the inclusive-range loop;
+                //   `E.map(|P| M).fold(init, |a, x| B)` / `E.fold(init, |a, x| B)` over an iterator ->
+                //   `{ let mut it = E.into_iter(); let mut acc = init; loop { match it.next() { Some(P) => { let x = M; let a = acc; acc = B; } None => break } } acc }`
+                if let Expr::Closure(cl) = &c.args[1] {
+                    let idx = rw.loop_idx.get();
+                    rw.loop_idx.set(idx + 1);
+                    let a0 = e.span().byte_range().start;
+                    let b0 = cl.span().byte_range().start;
+                    rw.loop_headers.borrow_mut().push(rw.src[a0..b0].split_whitespace().collect::<Vec<_>>().join(" "));
+                    let init = rw.render_expr(&c.args[0]);
+                    let pa = &rw.src[cl.inputs[0].span().byte_range()];
+                    let px = &rw.src[cl.inputs[1].span().byte_range()];
+                    let body = rw.render_expr(&cl.body);
+                    let inv = rw.section(&format!("loop {idx}")).map(|t| mark(t)).unwrap_or_default();
+                    let end = rw.section(&format!("loop {idx} end")).map(|t| format!("proof {{ //@p\n{}\n}} //@p\n", mark(t))).unwrap_or_default();
+                    let after = rw.section(&format!("loop {idx} after")).map(|t| format!("proof {{ //@p\n{}\n}} //@p\n", mark(t))).unwrap_or_default();
+                    let before = rw.section(&format!("loop {idx} before")).map(|t| format!("proof {{ //@p\n{}\n}} //@p\n", mark(t))).unwrap_or_default();
+                    let mut recv = &*c.receiver;
+                    while let Expr::Paren(p) = recv { recv = &p.expr; }
+                    let text = if let Expr::Range(r) = recv {
+                        let (lo, hi) = (rw.render_expr(r.start.as_ref().unwrap()), rw.render_expr(r.end.as_ref().unwrap()));
+                        if matches!(r.limits, syn::RangeLimits::HalfOpen(_)) {
+                            format!("({{ let mut __acc{idx} = {init}; let mut __it{idx} = {lo}; let __hi{idx} = {hi};\nwhile __it{idx} < __hi{idx}\n{inv}\ndecreases __hi{idx} - __it{idx}, //@p\n{{ let {px} = __it{idx}; __it{idx} += 1; let {pa} = __acc{idx}; __acc{idx} = {body};\n{end} }}\n{after} __acc{idx} }})")
+                        } else {
+                            format!("({{ let mut __acc{idx} = {init}; let mut __it{idx} = {lo}; let __hi{idx} = {hi}; let mut __go{idx} = __it{idx} <= __hi{idx};\nwhile __go{idx}\n{inv}\ndecreases (if __go{idx} {{ __hi{idx} - __it{idx} + 1 }} else {{ 0 }}), //@p\n{{ let {px} = __it{idx}; if __it{idx} < __hi{idx} {{ __it{idx} += 1; }} else {{ __go{idx} = false; }} let {pa} = __acc{idx}; __acc{idx} = {body};\n{end} }}\n{after} __acc{idx} }})")
+                        }
+                    } else {
+                        let (src_it, item_pat, item_val) = match recv {
+                            Expr::MethodCall(m) if m.method == "map" && m.args.len() == 1 && matches!(&m.args[0], Expr::Closure(mc) if mc.inputs.len() == 1) => {
+                                if let Expr::Closure(mc) = &m.args[0] {
+                                    (rw.render_expr(&m.receiver), rw.src[mc.inputs[0].span().byte_range()].to_string(), rw.render_expr(&mc.body))
+                                } else { unreachable!() }
+                            }
+                            other => (rw.render_expr(other), "__item".to_string(), "__item".to_string()),
+                        };
+                        let (item_pat, binds) = deref_pats(&item_pat);
+                        format!("({{ let mut __it{idx} = ({src_it}).into_iter(); let mut __acc{idx} = {init};\n{before}loop\n{inv}\n{{ match __it{idx}.next() {{ Some({item_pat}) => {{ {binds}let {px} = {item_val}; let {pa} = __acc{idx}; __acc{idx} = {body};\n{end} }} None => {{ break; }} }} }}\n{after} __acc{idx} }})")
+                    };
+                    rw.count("R16");
+                    let sp = e.span().byte_range();
+                    self.edits.push((sp.start, sp.end, text));
+                }
+            }
             Expr::MethodCall(c) if rw.fold_loops && c.method == "fold" && c.args.len() == 2 && matches!(&c.args[1], Expr::Closure(cl) if cl.inputs.len() == 2) => {
                 // R16 (option fold_loops=1): `V.iter().fold(init, |a, x| B)` / `V.iter().rev().fold(init, |a, x| B)` over a Vec ->
                 // the index loop these adaptors perform (front to back, resp. back to front)
@@ -741,12 +812,13 @@ impl<'a, 'b, 'ast> Visit<'ast> for Collector<'a, 'b> {
                     let b = cl.body.span().byte_range().start;
                     rw.loop_headers.borrow_mut().push(rw.src[a..b].split_whitespace().collect::<Vec<_>>().join(" "));
                     let it = rw.render_expr(&c.receiver);
-                    let pat = &rw.src[cl.inputs[0].span().byte_range()];
+                    let (pat, binds) = deref_pats(&rw.src[cl.inputs[0].span().byte_range()]);
                     let body = rw.render_expr(&cl.body);
                     let inv = rw.section(&format!("loop {idx}")).map(|t| mark(t)).unwrap_or_default();
                     let begin = rw.section(&format!("loop {idx} begin")).map(|t| format!("proof {{ //@p\n{}\n}} //@p\n", mark(t))).unwrap_or_default();
                     let after = rw.section(&format!("loop {idx} after")).map(|t| format!("proof {{ //@p\n{}\n}} //@p\n", mark(t))).unwrap_or_default();
-                    let text = format!("{{ let mut __it{idx} = ({it}).into_iter(); let mut __all{idx} = true;\nloop\n{inv}\n{{ match __it{idx}.next() {{ Some({pat}) => {{\n{begin} if !({body}) {{ __all{idx} = false; break; }} }} None => {{ break; }} }} }}\n{after} __all{idx} }}");
+                    let before = rw.section(&format!("loop {idx} before")).map(|t| format!("proof {{ //@p\n{}\n}} //@p\n", mark(t))).unwrap_or_default();
+                    let text = format!("({{ let mut __it{idx} = ({it}).into_iter(); let mut __all{idx} = true;\n{before}loop\n{inv}\n{{ match __it{idx}.next() {{ Some({pat}) => {{ {binds}\n{begin} if !({body}) {{ __all{idx} = false; break; }} }} None => {{ break; }} }} }}\n{after} __all{idx} }})");
                     rw.count("R19");
                     let sp = e.span().byte_range();
                     self.edits.push((sp.start, sp.end, text));
@@ -820,7 +892,7 @@ impl<'a, 'b, 'ast> Visit<'ast> for Collector<'a, 'b> {
                 let idx = rw.loop_idx.get();
                 rw.loop_idx.set(idx + 1);
                 let it = rw.render_expr(&w.expr);
-                let pat = &rw.src[w.pat.span().byte_range()];
+                let (pat, binds) = deref_pats(&rw.src[w.pat.span().byte_range()]);
                 let inv = rw.section(&format!("loop {idx}")).map(|t| mark(t)).unwrap_or_default();
                 let mut c = Collector { rw, edits: vec![] };
                 for st in &w.body.stmts { c.visit_stmt(st); }
@@ -829,7 +901,10 @@ impl<'a, 'b, 'ast> Visit<'ast> for Collector<'a, 'b> {
                 let begin = rw.section(&format!("loop {idx} begin")).map(|t| format!("proof {{ //@p\n{}\n}} //@p\n", mark(t))).unwrap_or_default();
                 let end = rw.section(&format!("loop {idx} end")).map(|t| format!("proof {{ //@p\n{}\n}} //@p\n", mark(t))).unwrap_or_default();
                 let after = rw.section(&format!("loop {idx} after")).map(|t| format!("proof {{ //@p\n{}\n}} //@p\n", mark(t))).unwrap_or_default();
-                let text = format!("{{ let mut __it{idx} = ({it}).into_iter();\nloop\n{inv}\n{{ match __it{idx}.next() {{ Some({pat}) => {{\n{begin}{inner}\n{end} }} None => {{ break; }} }} }}\n{after} }}");
+                // "begin-raw": ghost `let`s that must stay in scope for the whole iteration (not wrapped in a proof block)
+                let begin = format!("{}{}", rw.section(&format!("loop {idx} begin-raw")).map(|t| format!("{}\n", mark(t))).unwrap_or_default(), begin);
+                let before = rw.section(&format!("loop {idx} before")).map(|t| format!("proof {{ //@p\n{}\n}} //@p\n", mark(t))).unwrap_or_default();
+                let text = format!("{{ let mut __it{idx} = ({it}).into_iter();\n{before}loop\n{inv}\n{{ match __it{idx}.next() {{ Some({pat}) => {{ {binds}\n{begin}{{ {inner} }}\n{end} }} None => {{ break; }} }} }}\n{after} }}");
                 rw.count("R18");
                 let sp = e.span().byte_range();
                 self.edits.push((sp.start, sp.end, text));
@@ -939,7 +1014,7 @@ fn extract_body(repo: &Path, source: &str, d: &Directive, variant: &str) -> Resu
     let subst: Vec<(String, String)> = d
         .opts
         .get("subst")
-        .map(|s| split_top(s).into_iter().filter_map(|kv| kv.split_once(':').map(|(a, b)| (a.to_string(), b.to_string()))).collect())
+        .map(|s| split_top(s).into_iter().filter_map(|kv| split_kv(&kv)).collect())
         .unwrap_or_default();
     let rw = Rw {
         src: &src,
@@ -1055,6 +1130,16 @@ fn extract_body(repo: &Path, source: &str, d: &Directive, variant: &str) -> Resu
 
 // ---------------------------------------------------------------- type / const items (R7)
 
+/// `key:value` where either side may contain `::` (split at the first single colon)
+fn split_kv(kv: &str) -> Option<(String, String)> {
+    let b = kv.as_bytes();
+    for i in 0..b.len() {
+        if b[i] == b':' && (i == 0 || b[i - 1] != b':') && (i + 1 >= b.len() || b[i + 1] != b':') {
+            return Some((kv[..i].to_string(), kv[i + 1..].to_string()));
+        }
+    }
+    None
+}
 /// split at commas that are not inside `<...>` (so `AHashMap<X,R>:AMap,R:ER` has two entries)
 fn split_top(s: &str) -> Vec<String> {
     let (mut out, mut cur, mut depth) = (vec![], String::new(), 0i32);
@@ -1104,7 +1189,7 @@ fn extract_item(repo: &Path, source: &str, sel: &str, opts: &BTreeMap<String, St
     let file = syn::parse_file(&src).map_err(|e| Fail { kind: "anchor-lost", msg: format!("{source}: parse error {e}") })?;
     let subst: Vec<(String, String)> = opts
         .get("subst")
-        .map(|s| split_top(s).into_iter().filter_map(|kv| kv.split_once(':').map(|(a, b)| (a.to_string(), b.to_string()))).collect())
+        .map(|s| split_top(s).into_iter().filter_map(|kv| split_kv(&kv)).collect())
         .unwrap_or_default();
     let parts: Vec<&str> = sel.split('/').collect();
     fn all_items<'a>(items: &'a [Item], out: &mut Vec<&'a Item>) {
